@@ -1,1 +1,196 @@
-//! placeholder
+//! `TreeBuilder` / `SliceBuilder` through `LRBuilder::{shift_action, reduce_action}` and
+//! `Builder::get_result` (C02, C13, C14, C15).
+use crate::common::*;
+use rustemo::{Builder, Context, Input, LRBuilder, LRContext, Position, SliceBuilder, SourceSpan, Token, TreeBuilder, TreeNode};
+
+const INPUT: &str = "abcdefgh";
+
+fn any_span() -> SourceSpan {
+    let a: usize = kani::any();
+    let b: usize = kani::any();
+    kani::assume(a <= b && b <= 8);
+    SourceSpan::new(Position::from(a), Position::from(b))
+}
+
+fn any_layout() -> Option<&'static str> {
+    if kani::any() {
+        let a: usize = kani::any();
+        let b: usize = kani::any();
+        kani::assume(a <= b && b <= 8);
+        Some(&INPUT[a..b])
+    } else {
+        None
+    }
+}
+
+/// Identity of a node, for the reference list model.
+#[derive(Clone, Copy, PartialEq, Eq)]
+struct Id {
+    is_term: bool,
+    kind_or_prod: u8,
+    span: SourceSpan,
+    layout_ptr: Option<(usize, usize)>,
+}
+
+fn lay(l: Option<&str>) -> Option<(usize, usize)> {
+    l.map(|s| (s.as_ptr() as usize, s.len()))
+}
+
+fn id_of(n: &TreeNode<'static, str, P, Tk>) -> Id {
+    match n {
+        TreeNode::TermNode { token, layout } => Id { is_term: true, kind_or_prod: token.kind.0, span: token.span, layout_ptr: lay(*layout) },
+        TreeNode::NonTermNode { prod, span, layout, .. } => Id { is_term: false, kind_or_prod: prod.0, span: *span, layout_ptr: lay(*layout) },
+    }
+}
+
+type TB = TreeBuilder<'static, str, P, Tk>;
+
+/// Pushes `k` leaves with arbitrary kinds/spans/layouts through `shift_action` and
+/// checks that each leaf stores the token and the context's layout (C14).
+fn shift_k(b: &mut TB, ids: &mut [Option<Id>; 5], k: usize) {
+    let mut i = 0;
+    while i < k {
+        let mut ctx: Ctx = LRContext::new(Position::from(0));
+        let span = any_span();
+        let layout = any_layout();
+        ctx.set_layout_ahead(layout);
+        let kind = Tk(kani::any());
+        let tok = Token { kind, value: &INPUT[span.start.pos..span.end.pos], span };
+        <TB as LRBuilder<str, Ctx, St, P, Tk>>::shift_action(b, &ctx, tok);
+        ids[i] = Some(Id { is_term: true, kind_or_prod: kind.0, span, layout_ptr: lay(layout) });
+        i += 1;
+    }
+}
+
+macro_rules! tree_reduce {
+    ($name:ident, $k:expr, $len:expr) => {
+        /// C02: `reduce_action(prod, len)` on a stack of K nodes leaves K-len+1 nodes; the new
+        /// node carries the production and the context span, its children are exactly the
+        /// previous top `len` nodes in order, its layout is the first child's (None when
+        /// empty); the nodes below are untouched. C14: leaves keep token and layout.
+        #[kani::proof]
+        #[kani::unwind(8)]
+        pub fn $name() {
+            let mut b: TB = TreeBuilder::new();
+            let mut ids: [Option<Id>; 5] = [None; 5];
+            shift_k(&mut b, &mut ids, $k);
+            // a first reduction so that the stack also holds a non-terminal node
+            let inner: bool = kani::any();
+            let mut k = $k;
+            if inner && k >= 1 {
+                let mut ctx: Ctx = LRContext::new(Position::from(0));
+                let sp = any_span();
+                ctx.set_span(sp);
+                let pr = P(kani::any());
+                <TB as LRBuilder<str, Ctx, St, P, Tk>>::reduce_action(&mut b, &ctx, pr, 1);
+                let first = ids[k - 1].unwrap();
+                ids[k - 1] = Some(Id { is_term: false, kind_or_prod: pr.0, span: sp, layout_ptr: first.layout_ptr });
+            }
+            let mut ctx: Ctx = LRContext::new(Position::from(0));
+            let span = any_span();
+            ctx.set_span(span);
+            let prod = P(kani::any());
+            <TB as LRBuilder<str, Ctx, St, P, Tk>>::reduce_action(&mut b, &ctx, prod, $len);
+            // pop everything and compare with the list model
+            let top = b.get_result();
+            match &top {
+                TreeNode::NonTermNode { prod: p2, span: s2, children, layout } => {
+                    assert!(*p2 == prod, "C02 node carries the production reduced by");
+                    assert!(*s2 == span, "C13 node carries the span of the reduction");
+                    assert!(children.len() == $len, "C02 node has exactly prod_len children");
+                    let mut j = 0;
+                    while j < $len {
+                        assert!(Some(id_of(&children[j])) == ids[$k - $len + j], "C02 children are the previous top nodes, in order");
+                        j += 1;
+                    }
+                    if $len > 0 {
+                        assert!(lay(*layout) == ids[$k - $len].unwrap().layout_ptr, "C14 layout of a node is its first child's");
+                    } else {
+                        assert!(layout.is_none(), "C14 an empty node has no layout");
+                    }
+                }
+                _ => assert!(false, "C02 reduce pushes a non-terminal node"),
+            }
+            // nodes below are untouched, in order
+            let mut r = $k - $len;
+            while r > 0 {
+                let n = b.get_result();
+                assert!(Some(id_of(&n)) == ids[r - 1], "C02 nodes below the reduction are untouched");
+                std::mem::forget(n);
+                r -= 1;
+            }
+            kani::cover!(inner, "stack holds a non-terminal child");
+            std::mem::forget(top);
+            std::mem::forget(b);
+        }
+    };
+}
+tree_reduce!(tree_reduce_1_0, 1, 0);
+tree_reduce!(tree_reduce_1_1, 1, 1);
+tree_reduce!(tree_reduce_2_1, 2, 1);
+tree_reduce!(tree_reduce_2_2, 2, 2);
+tree_reduce!(tree_reduce_3_0, 3, 0);
+tree_reduce!(tree_reduce_3_2, 3, 2);
+tree_reduce!(tree_reduce_3_3, 3, 3);
+tree_reduce!(tree_reduce_4_2, 4, 2);
+tree_reduce!(tree_reduce_4_4, 4, 4);
+
+/// C15: `reduce_action` with an empty result stack and prod_len 0 is fine (first action
+/// of a parse can be an empty reduction).
+#[kani::proof]
+#[kani::unwind(4)]
+pub fn tree_reduce_0_0() {
+    let mut b: TB = TreeBuilder::new();
+    let mut ctx: Ctx = LRContext::new(Position::from(0));
+    let span = any_span();
+    ctx.set_span(span);
+    <TB as LRBuilder<str, Ctx, St, P, Tk>>::reduce_action(&mut b, &ctx, P(3), 0);
+    let top = b.get_result();
+    match &top {
+        TreeNode::NonTermNode { prod, span: s2, children, layout } => {
+            assert!(prod.0 == 3 && *s2 == span && children.is_empty() && layout.is_none());
+        }
+        _ => assert!(false),
+    }
+    std::mem::forget(top);
+    std::mem::forget(b);
+}
+
+/// C14/C15: `SliceBuilder` (layout parser result): the slice saved on reduce is
+/// `input[context.span()]`; arbitrary UTF-8 input, spans on char boundaries.
+#[kani::proof]
+#[kani::unwind(8)]
+pub fn slice_builder_4() {
+    let mut buf = [0u8; 4];
+    let s: &str = any_str::<4>(&mut buf);
+    let a = any_pos_in(s);
+    let b = any_pos_in(s);
+    kani::assume(a.pos <= b.pos);
+    let mut sb: SliceBuilder<str> = SliceBuilder::new(s);
+    let mut ctx: Ctx = LRContext::new(Position::from(0));
+    assert!(sb.get_result().is_none(), "no slice before any reduction");
+    ctx.set_span(SourceSpan::new(a, b));
+    <SliceBuilder<str> as LRBuilder<str, Ctx, St, P, Tk>>::shift_action(&mut sb, &ctx, Token { kind: Tk(1), value: &s[a.pos..b.pos], span: SourceSpan::new(a, b) });
+    assert!(sb.get_result().is_none(), "shift does not produce a slice");
+    <SliceBuilder<str> as LRBuilder<str, Ctx, St, P, Tk>>::reduce_action(&mut sb, &ctx, P(0), 1);
+    let r = sb.get_result().unwrap();
+    assert!(r.len() == b.pos - a.pos);
+    assert!(r.as_ptr() == s[a.pos..].as_ptr(), "C14 layout is the slice of the input at the reduced span");
+    kani::cover!(r.len() >= 2, "non-trivial slice");
+}
+
+/// Vacuity twin.
+#[kani::proof]
+#[kani::unwind(8)]
+pub fn builder_twin_must_fail() {
+    let mut b: TB = TreeBuilder::new();
+    let mut ids: [Option<Id>; 5] = [None; 5];
+    shift_k(&mut b, &mut ids, 2);
+    let mut ctx: Ctx = LRContext::new(Position::from(0));
+    ctx.set_span(any_span());
+    <TB as LRBuilder<str, Ctx, St, P, Tk>>::reduce_action(&mut b, &ctx, P(1), 2);
+    let top = b.get_result();
+    std::mem::forget(top);
+    std::mem::forget(b);
+    assert!(false, "twin: reachable end of harness");
+}
